@@ -412,6 +412,42 @@ def split_rule(repo, rep):
     label_slice = any(isinstance(c, ast.Call) and isinstance(c.func, ast.Attribute) and c.func.attr == "sel" and
                       any(k.arg == "freq" and isinstance(k.value, ast.Call) and call_name(k.value) == "slice" and
                           [unparse(a_) for a_ in k.value.args] == ["fmin", "fmax"] for k in c.keywords) for c in ast.walk(sp.node))
+    # direction limits: applied when EITHER limit is given
+    D_ = repo.attrs.DIRNAME
+    dsel = None
+    for n_ in ast.walk(sp.node):
+        if isinstance(n_, ast.If) and any(isinstance(c_, ast.Call) and isinstance(c_.func, ast.Attribute) and c_.func.attr == "sel" and
+                                          any(isinstance(x, ast.Call) and call_name(x) == "slice" and [unparse(a_) for a_ in x.args] == ["dmin", "dmax"]
+                                              for x in ast.walk(c_)) for b_ in n_.body for c_ in ast.walk(b_)):
+            dsel = n_
+    if dsel is None:
+        rep.fail("R-C09-4", sp.file, sp.node.lineno, sp.qualname, "direction slicing", "sel(dir=slice(dmin, dmax)) under a guard on the limits not found")
+    else:
+        def lim_part(t):
+            names = {x.id for x in ast.walk(t) if isinstance(x, ast.Name)}
+            if not ({"dmin", "dmax"} & names):
+                return "none"
+            if isinstance(t, ast.BoolOp):
+                kinds = [lim_part(v) for v in t.values]
+                lims = [k for k in kinds if k != "none"]
+                if isinstance(t.op, ast.Or):
+                    return "either" if all(k in ("one", "either") for k in lims) and len(lims) >= 2 else (lims[0] if len(lims) == 1 else "mixed")
+                # And
+                if len(lims) == 1:
+                    return lims[0]
+                return "both"
+            if isinstance(t, ast.Call) and call_name(t) == "any":
+                return "either" if {"dmin", "dmax"} <= names else "one"
+            if isinstance(t, ast.Call) and call_name(t) == "all":
+                return "both"
+            return "one" if len({"dmin", "dmax"} & names) == 1 else "mixed"
+        kind = lim_part(dsel.test)
+        if kind == "either":
+            rep.ok("R-C09-4", f"{sp.file}:{dsel.lineno} split", "if " + unparse(dsel.test), "direction band applied when either limit is given")
+        else:
+            rep.fail("R-C09-4", sp.file, dsel.lineno, sp.qualname, "if " + unparse(dsel.test),
+                     "the direction band must be applied when EITHER dmin or dmax is given (the other defaulting to the end of the grid): "
+                     "requiring both silently ignores a one-sided limit and returns all directions", anchor="split:direction-limit-guard")
     if sides == {"fmin": 0, "fmax": 1} and label_slice:
         rep.ok("R-C09-4", f"{sp.file} split", "sel(freq=slice(fmin, fmax)); interpolated bins prepended at fmin / appended at fmax", "band kept unchanged, cutoffs inserted on the right side")
     else:
